@@ -109,6 +109,8 @@ var sharedOperands = []string{"SI,msg", "BX,fin", "AX,entry", "SI,strend", "CX,r
 type progGen struct {
 	nonASCII bool // string literals may contain non-ASCII text (C10 pools only: C19 re-encodes files)
 	names    []string
+	dotted   []string // labels containing '.' or '$'; never used as jump targets
+	mustJump []string // labels that must be the target of at least one jump
 	r        *RNG
 	labels   []string
 	equs     []string
@@ -195,6 +197,9 @@ func (g *progGen) imm(bits int) string {
 }
 
 func (g *progGen) mem() string {
+	if len(g.dotted) > 0 && g.r.Chance(1, 6) {
+		return "[" + pick(g.r, g.dotted) + "]"
+	}
 	if g.r.Chance(1, 4) {
 		return "[" + g.addr() + "]"
 	}
@@ -685,6 +690,37 @@ func genBody(r *RNG, o genOpts) (body []string, hasEqu, hasGlobal bool) {
 		}
 		g.labels = append(g.labels, g.newName())
 	}
+	// labels with '.' or '$' in their names (the grammar allows them): siblings of existing names that
+	// differ only in '.', '$' or '_' (".fin" next to "_fin"), and extensions at a '.' boundary
+	// ("msg.end" next to "msg"). gosk cannot jump to them, so they are only defined and used in
+	// memory operands and data.
+	if len(g.labels) > 0 && r.Chance(1, 3) {
+		for k, n := 0, r.Range(1, 3); k < n; k++ {
+			base := pick(r, g.labels)
+			for t := 0; t < 6 && !strings.Contains(base, "_"); t++ {
+				base = pick(r, g.labels)
+			}
+			var d string
+			switch r.Intn(4) {
+			case 0:
+				d = base + pick(r, []string{".end", ".1", "$1", ".loop"})
+			case 1:
+				d = "." + strings.TrimLeft(base, "_")
+			case 2:
+				d = strings.Replace(base, "_", pick(r, []string{".", "$"}), 1)
+			default:
+				d = pick(r, []string{".loop", ".L1", "skip$1", "a.b.c"})
+			}
+			if d == base || g.used[strings.ToUpper(d)] || strings.ContainsAny(d[:1], "0123456789") {
+				continue
+			}
+			g.used[strings.ToUpper(d)] = true
+			g.dotted = append(g.dotted, d)
+			if strings.NewReplacer(".", "_", "$", "_").Replace(d) == base {
+				g.mustJump = append(g.mustJump, base) // the plain sibling is a jump target
+			}
+		}
+	}
 	// GLOBAL declarations: a subset of labels in shuffled order + undefined names + duplicates
 	var globals []string
 	if o.NGlobal > 0 && len(g.labels) > 0 {
@@ -722,7 +758,12 @@ func genBody(r *RNG, o genOpts) (body []string, hasEqu, hasGlobal bool) {
 		body = append(body, "[SECTION .text]")
 	}
 	// Statements with labels spread among them; with Ties several labels share an address.
-	pending := append([]string(nil), g.labels...)
+	pending := append(append([]string(nil), g.labels...), g.dotted...)
+	for i := len(pending) - 1; i > 0; i-- { // dotted labels anywhere among the others
+		if j := r.Intn(i + 1); len(g.dotted) > 0 {
+			pending[i], pending[j] = pending[j], pending[i]
+		}
+	}
 	known := g.labels
 	g.labels = known // all labels are referable (forward references included)
 	for i := 0; i < o.NStmts; i++ {
@@ -738,6 +779,9 @@ func genBody(r *RNG, o genOpts) (body []string, hasEqu, hasGlobal bool) {
 	}
 	for _, l := range pending {
 		body = append(body, l+":")
+	}
+	for _, t := range g.mustJump {
+		body = append(body, "\t"+pick(r, []string{"JMP", "JE", "JNZ", "CALL"})+"\t"+t)
 	}
 	body = append(body, lateEqus...)
 	return
